@@ -537,7 +537,7 @@ Proof.
   - assert (Hsub : forall m, In m ms -> forall x, mem x (snd (snd m)) = true -> mem x (I0 :: G0) = true).
     { intros m Hin x Hx. rewrite Hm. apply existsb_exists. exists (snd (snd m)). split; [|exact Hx].
       unfold sups. apply in_map_iff. exists m. split; [reflexivity|exact Hin]. }
-    clear Hm EG HT HP. revert Hsub. generalize (I0 :: G0) as G Hc. clear I0 G0. intros G Hc Hsub.
+    clear Hm EG HT HP. remember (I0 :: G0) as GG eqn:EGG. clear EGG I0 G0.
     induction ms as [|m ms IH]; [constructor|].
     inversion HD as [|? ? Hd HD']; subst. cbn [map]. constructor.
     + cbn [fst snd]. split; [reflexivity|]. intros Hn. destruct Hd as [Hs He].
@@ -545,4 +545,217 @@ Proof.
       eapply Forall_impl'; [|apply nondegenerate_covered; assumption].
       cbv beta. intros x Hx. apply (Hsub m (or_introl eq_refl)). rewrite He. exact Hx.
     + apply IH; [exact HD'|]. intros m' Hin. apply Hsub. right. exact Hin.
+Qed.
+
+Definition no_touching_pair (sups : list iset) : Prop := forall A B, sups = [A; B] -> ~ touching A B.
+
+Lemma no_touching_pair_len sups : length sups <> 2%nat -> no_touching_pair sups.
+Proof. intros H A B E. subst sups. simpl in H. congruence. Qed.
+
+Lemma Forall2_map_l {A B C} (f : A -> B) (R : B -> C -> Prop) l : forall out,
+  Forall2 R (map f l) out -> Forall2 (fun a o => R (f a) o) l out.
+Proof.
+  induction l as [|a l IH]; intros out H; inversion H; subst; constructor; auto.
+Qed.
+
+Lemma Forall2_compose {A B C} (R1 : A -> B -> Prop) (R2 : B -> C -> Prop) l : forall m o,
+  Forall2 R1 l m -> Forall2 R2 m o -> Forall2 (fun a c => exists b, R1 a b /\ R2 b c) l o.
+Proof.
+  induction l as [|a l IH]; intros m o H1 H2; inversion H1; subst; inversion H2; subst; constructor; eauto.
+Qed.
+
+(* --- jitter_timestamps(TsGroup, keep_tsupport=False) --- *)
+Definition jittered (p : (Z * list Z) * list Z) : list Z := sortZ (add_draws (snd (fst p)) (snd p)).
+
+Theorem jitter_group_free_spec s e g dss out G :
+  jitter_group false s e g dss = Some (out, G) ->
+  no_touching_pair (map (fun p => first_last_support (jittered p)) (combine g dss)) ->
+  map fst out = map (fun p : (Z * list Z) * list Z => fst (fst p)) (combine g dss)
+  /\ Forall2 (fun (p : (Z * list Z) * list Z) (o : Z * list Z) =>
+                fst o = fst (fst p)
+                /\ (nondegenerate (jittered p) -> snd o = fst (jitter_ts false s e (snd (fst p)) (snd p))))
+             (combine g dss) out.
+Proof.
+  intros H HT. unfold jitter_group in H.
+  set (f := fun p : (Z * list Z) * list Z => (fst (fst p), mk_ts (sortZ (add_draws (snd (fst p)) (snd p))) None)) in *.
+  assert (Es : map (fun m : member => snd (snd m)) (map f (combine g dss))
+               = map (fun p => first_last_support (jittered p)) (combine g dss)).
+  { rewrite map_map. apply map_ext. intros p. unfold f, jittered. cbn [snd]. rewrite mk_ts_none. reflexivity. }
+  destruct (mk_group_none_spec _ _ _ H) as [K M].
+  - apply Forall_forall. intros m Hm. apply in_map_iff in Hm. destruct Hm as (p & <- & _).
+    unfold f, default_member. cbn [fst snd]. rewrite mk_ts_none. cbn [fst snd]. split; [apply sortZ_sorted|reflexivity].
+  - unfold no_touching_pair in HT. rewrite Es. exact HT.
+  - split.
+    + rewrite K, map_map. reflexivity.
+    + apply Forall2_map_l in M. eapply Forall2_impl'; [|exact M]. cbv beta.
+      intros p o [H1 H2]. unfold f in *. cbn [fst snd] in *. rewrite mk_ts_none_fst in H2.
+      split; [exact H1|]. intros Hn. rewrite jitter_free_fst. apply H2. exact Hn.
+Qed.
+
+(* --- shuffle_ts_intervals(TsGroup) --- *)
+Definition sumZ' (l : list Z) : Z := fold_right Z.add 0 l.
+
+Lemma sumZ'_perm l l' : Permutation l l' -> sumZ' l = sumZ' l'.
+Proof. induction 1; simpl in *; lia. Qed.
+
+Lemma last_cumsum ds : forall a, last (a :: cumsum_from a ds) a = a + sumZ' ds.
+Proof.
+  induction ds as [|d r IH]; intros a; [simpl; lia|].
+  cbn [cumsum_from]. rewrite last_cons.
+  rewrite (last_default_irrelevant _ a (a + d)) by discriminate.
+  rewrite IH. simpl. lia.
+Qed.
+
+Lemma last_sum_diffs r : forall t0, last (t0 :: r) t0 = t0 + sumZ' (diffs (t0 :: r)).
+Proof.
+  induction r as [|b r IH]; intros t0; [simpl; lia|].
+  rewrite last_cons. rewrite (last_default_irrelevant _ t0 b) by discriminate.
+  rewrite IH. cbn [diffs]. simpl. lia.
+Qed.
+
+Definition shuffled (t0 : Z) (r : list Z) (perm : list nat) : list Z :=
+  t0 :: cumsum_from t0 (permute perm (diffs (t0 :: r))).
+
+Lemma shuffled_nondegenerate t0 r perm : Permutation perm (seq 0 (length r)) ->
+  nondegenerate (t0 :: r) -> nondegenerate (shuffled t0 r perm).
+Proof.
+  intros Hp. unfold nondegenerate, shuffled. cbn [hd].
+  rewrite (last_default_irrelevant (t0 :: r) 0 t0) by discriminate.
+  rewrite (last_default_irrelevant (t0 :: cumsum_from _ _) 0 t0) by discriminate.
+  rewrite last_cumsum, last_sum_diffs.
+  rewrite (sumZ'_perm _ _ (permute_Permutation perm (diffs (t0 :: r)) ltac:(rewrite diffs_length; exact Hp))).
+  lia.
+Qed.
+
+Definition valid_shuffle_input (kt : Z * list Z) (perm : list nat) : Prop :=
+  sortedZ (snd kt) /\ Permutation perm (seq 0 (length (snd kt) - 1)).
+
+Lemma shuffle_members_spec g : forall perms ms,
+  Forall2 valid_shuffle_input g perms -> shuffle_members g perms = Some ms ->
+  Forall default_member ms
+  /\ Forall2 (fun (kt : Z * list Z) (m : member) =>
+                fst m = fst kt
+                /\ hd 0 (fst (snd m)) = hd 0 (snd kt)
+                /\ length (fst (snd m)) = length (snd kt)
+                /\ Permutation (diffs (fst (snd m))) (diffs (snd kt))
+                /\ (nondegenerate (snd kt) -> nondegenerate (fst (snd m)))) g ms.
+Proof.
+  induction g as [|[k ts] g IH]; intros perms ms HV H.
+  - inversion HV; subst. simpl in H. inversion H; subst. split; constructor.
+  - inversion HV as [|? perm ? perms' [Hs Hp] HV']; subst. cbn [shuffle_members] in H.
+    destruct (shuffle_ts ts perm) as [r0|] eqn:E1; [|discriminate].
+    destruct (shuffle_members g perms') as [rs|] eqn:E2; [|discriminate].
+    inversion H; subst ms. clear H. destruct (IH _ _ HV' E2) as [D1 D2].
+    destruct ts as [|t0 r]; [discriminate|]. cbn [snd length] in Hs, Hp.
+    replace (S (length r) - 1)%nat with (length r) in Hp by lia.
+    destruct (shuffle_ts_spec t0 r perm Hs Hp) as (o & sp & Eo & A1 & A2 & A3 & A4 & A5).
+    rewrite E1 in Eo. inversion Eo; subst r0. clear Eo.
+    assert (Eq : shuffle_ts (t0 :: r) perm = Some (shuffled t0 r perm, first_last_support (shuffled t0 r perm))) by reflexivity.
+    rewrite E1 in Eq.
+    inversion Eq; subst o sp. split.
+    + constructor; [|exact D1]. split; cbn [fst snd]; [exact A5|reflexivity].
+    + constructor; [|exact D2]. cbn [fst snd]. repeat split; try assumption.
+      intros Hn. apply shuffled_nondegenerate; assumption.
+Qed.
+
+Theorem shuffle_group_spec g perms out G :
+  Forall2 valid_shuffle_input g perms ->
+  shuffle_group g perms = Some (out, G) ->
+  (forall ms, shuffle_members g perms = Some ms -> no_touching_pair (map (fun m : member => snd (snd m)) ms)) ->
+  map fst out = map fst g
+  /\ Forall2 (fun (kt : Z * list Z) (o : Z * list Z) =>
+                fst o = fst kt
+                /\ (nondegenerate (snd kt) ->
+                    hd 0 (snd o) = hd 0 (snd kt)
+                    /\ length (snd o) = length (snd kt)
+                    /\ Permutation (diffs (snd o)) (diffs (snd kt)))) g out.
+Proof.
+  intros HV H HT. unfold shuffle_group in H.
+  destruct (shuffle_members g perms) as [ms|] eqn:E; [|discriminate].
+  destruct (shuffle_members_spec g perms ms HV E) as [D1 D2].
+  destruct (mk_group_none_spec ms out G H D1 (HT ms eq_refl)) as [K M].
+  assert (F : Forall2 (fun (kt : Z * list Z) (o : Z * list Z) =>
+                fst o = fst kt
+                /\ (nondegenerate (snd kt) ->
+                    hd 0 (snd o) = hd 0 (snd kt)
+                    /\ length (snd o) = length (snd kt)
+                    /\ Permutation (diffs (snd o)) (diffs (snd kt)))) g out).
+  { eapply Forall2_impl'; [|exact (Forall2_compose _ _ _ _ _ D2 M)]. cbv beta.
+    intros kt o (m & (B1 & B2 & B3 & B4 & B5) & (C1 & C2)). split; [congruence|].
+    intros Hn. rewrite (C2 (B5 Hn)). auto. }
+  split; [|exact F].
+  clear - F. induction F as [|kt o g out [Hk _] _ IH]; [reflexivity|]. cbn [map]. rewrite Hk, IH. reflexivity.
+Qed.
+
+(* --- what is FALSE of the faithful model (and of the code): counts in a group with a recomputed support --- *)
+
+(* a member with a single (distinct) timestamp has an empty default support and is emptied by the
+   restriction to the union of the members' supports: zero jitter already loses it *)
+Theorem group_recomputed_support_refuted_single :
+  exists s e g dss out G,
+    s < e /\ Forall (fun kt => Forall (inside s e) (snd kt) /\ sortedZ (snd kt)) g
+    /\ Forall2 (fun kt ds => length ds = length (snd kt) /\ Forall (fun d => d = 0) ds) g dss
+    /\ jitter_group false s e g dss = Some (out, G)
+    /\ exists k ts ts', In (k, ts) g /\ In (k, ts') out /\ (length ts' < length ts)%nat.
+Proof.
+  exists 0, 100, [(0, [10; 20; 30]); (1, [50])], [[0; 0; 0]; [0]], [(0, [10; 20; 30]); (1, [])], [(10, 30)].
+  split; [lia|]. split; [repeat constructor; unfold inside; simpl; lia|].
+  split; [repeat constructor|]. split; [vm_compute; reflexivity|].
+  exists 1, [50], []. simpl. repeat split; auto.
+Qed.
+
+(* two members whose recomputed supports touch: jitunion leaves them touching, the IntervalSet
+   constructor trims 1 us off the earlier one, and a timestamp inside that microsecond is dropped *)
+Theorem group_recomputed_support_refuted_touching :
+  exists g perms out G,
+    Forall2 valid_shuffle_input g perms /\ Forall (fun kt => nondegenerate (snd kt)) g
+    /\ shuffle_group g perms = Some (out, G)
+    /\ exists k ts ts', In (k, ts) g /\ In (k, ts') out /\ (length ts' < length ts)%nat.
+Proof.
+  exists [(0, [0; 999500; 1000000]); (1, [1000000; 2000000])], [[0%nat; 1%nat]; [0%nat]],
+         [(0, [0; 1000000]); (1, [1000000; 2000000])], [(0, 999000); (1000000, 2000000)].
+  split. { repeat constructor; simpl; lia. }
+  split. { repeat constructor; unfold nondegenerate; simpl; lia. }
+  split; [vm_compute; reflexivity|].
+  exists 0, [0; 999500; 1000000], [0; 1000000]. simpl. repeat split; auto.
+Qed.
+
+(* exceptions: an empty member makes shuffle raise; a group whose members all have a single distinct
+   timestamp has an empty union of supports and the TsGroup constructor raises *)
+Theorem group_recomputed_support_raises :
+  shuffle_group [(0, [10; 20]); (1, [])] [[0%nat]; []] = None
+  /\ shuffle_group [(0, [10]); (1, [20; 20])] [[]; [0%nat]] = None
+  /\ jitter_group false 0 100 [(0, [10]); (1, [20; 21])] [[0]; [1; 0]] = None.
+Proof. vm_compute. repeat split. Qed.
+
+(* corollaries: any group that is not a PAIR of members is free of the touching exception *)
+Corollary jitter_group_free_not2 s e g dss out G :
+  length dss = length g -> length g <> 2%nat ->
+  jitter_group false s e g dss = Some (out, G) ->
+  map fst out = map fst g
+  /\ Forall2 (fun (p : (Z * list Z) * list Z) (o : Z * list Z) =>
+                fst o = fst (fst p)
+                /\ (nondegenerate (jittered p) -> snd o = fst (jitter_ts false s e (snd (fst p)) (snd p))))
+             (combine g dss) out.
+Proof.
+  intros Hl Hn H. destruct (jitter_group_free_spec s e g dss out G H) as [K M].
+  - apply no_touching_pair_len. rewrite map_length, combine_length. lia.
+  - split; [|exact M]. rewrite K. apply map_keys_combine. exact Hl.
+Qed.
+
+Corollary shuffle_group_not2 g perms out G :
+  Forall2 valid_shuffle_input g perms -> length g <> 2%nat ->
+  shuffle_group g perms = Some (out, G) ->
+  map fst out = map fst g
+  /\ Forall2 (fun (kt : Z * list Z) (o : Z * list Z) =>
+                fst o = fst kt
+                /\ (nondegenerate (snd kt) ->
+                    hd 0 (snd o) = hd 0 (snd kt)
+                    /\ length (snd o) = length (snd kt)
+                    /\ Permutation (diffs (snd o)) (diffs (snd kt)))) g out.
+Proof.
+  intros HV Hn H. apply (shuffle_group_spec g perms out G HV H).
+  intros ms E. apply no_touching_pair_len. rewrite map_length.
+  destruct (shuffle_members_spec g perms ms HV E) as [_ D2].
+  rewrite <- (Forall2_length' _ _ _ D2). exact Hn.
 Qed.
